@@ -1737,6 +1737,203 @@ Section Helpers.
       apply sep_catch; [|now sret].
       sbindT; [eapply sep_weaken; [apply Hrec; exact Hl'|auto]|]. intros; now sret.
   Qed.
+  (* ---- element helpers called with _inplace=True: the collection object is read
+     out of the receiver before anything is written ---- *)
+  Definition pure {T} (m : M T) : Prop := forall s, snd (m s) = s.
+  Lemma pure_ret {T} (a : T) : pure (ret a).
+  Proof. intro s; reflexivity. Qed.
+  Lemma pure_fail {T} e : pure (@fail T e).
+  Proof. intro s; reflexivity. Qed.
+  Lemma pure_read l : pure (read l).
+  Proof. intro s. unfold read. destruct (nth_error (heap s) l); reflexivity. Qed.
+  Lemma pure_bind {T U} (m : M T) (k : T -> M U) : pure m -> (forall a, pure (k a)) -> pure (bind m k).
+  Proof.
+    intros Hm Hk s. unfold bind. specialize (Hm s). destruct (m s) as [[a|e] s1]; simpl in *; subst; auto. apply Hk.
+  Qed.
+  Lemma bind_pure {T U} (m : M T) (k : T -> M U) s :
+    pure m -> bind m k s = match fst (m s) with Ok a => k a s | Err e => (Err e, s) end.
+  Proof. intro Hm. unfold bind. specialize (Hm s). destruct (m s) as [[a|e] s1]; simpl in *; subst; reflexivity. Qed.
+  Lemma read_inst_pure l : pure (read_inst l).
+  Proof. unfold read_inst. apply pure_bind; [apply pure_read|]. intros [| | |]; try apply pure_fail. apply pure_ret. Qed.
+  Lemma cls_of_pure c : pure (cls_of ct c).
+  Proof. unfold cls_of. destruct (lookup_cls ct c); [apply pure_ret|apply pure_fail]. Qed.
+  Lemma getattr_default_pure l a : pure (getattr_default ct l a).
+  Proof.
+    unfold getattr_default. apply pure_bind; [apply read_inst_pure|]. intros p.
+    destruct (assoc a (snd p)); [apply pure_ret|]. apply pure_bind; [apply cls_of_pure|]. intros; apply pure_ret.
+  Qed.
+
+  Lemma spec_for_pure l a : pure (spec_for ct l a).
+  Proof.
+    unfold spec_for. apply pure_bind; [apply read_inst_pure|]. intros p.
+    apply pure_bind; [apply cls_of_pure|]. intros k. destruct (lookup_attr k a); [apply pure_ret|apply pure_fail].
+  Qed.
+
+  Lemma spec_for_ok l a s r :
+    fst (spec_for ct l a s) = Ok r -> a_name (snd r) = a /\ specOk (snd r).
+  Proof.
+    unfold spec_for. rewrite bind_pure by apply read_inst_pure.
+    destruct (fst (read_inst l s)) as [p|e]; [|discriminate].
+    rewrite bind_pure by apply cls_of_pure. unfold cls_of at 1.
+    destruct (lookup_cls ct (fst p)) as [k|] eqn:Ek; simpl; [|discriminate].
+    destruct (lookup_attr k a) as [sp|] eqn:Ea; simpl; [|discriminate].
+    intro E. inversion E; subst. simpl. split; [eapply lookup_attr_in; eauto|eapply lookup_attr_ok; eauto].
+  Qed.
+
+  Lemma mk_mutator_inplace sp l s :
+    snd (mk_mutator ct sp l true s) = s /\
+    forall c, fst (mk_mutator ct sp l true s) = Ok c -> fst (getattr_default ct l (a_name sp) s) = Ok c.
+  Proof.
+    unfold mk_mutator. rewrite bind_pure by apply read_inst_pure.
+    destruct (fst (read_inst l s)) as [p|e]; [|split; [reflexivity|discriminate]].
+    rewrite bind_pure by apply cls_of_pure.
+    destruct (fst (cls_of ct (fst p) s)) as [k|e]; [|split; [reflexivity|discriminate]].
+    rewrite bind_pure by (destruct (true && c_frozen k && negb (initializing (snd p))); [apply pure_fail|apply pure_ret]).
+    destruct (true && c_frozen k && negb (initializing (snd p))); simpl; [split; [reflexivity|discriminate]|].
+    rewrite bind_pure by apply getattr_default_pure.
+    destruct (fst (getattr_default ct l (a_name sp) s)) as [c|e]; [|split; [reflexivity|discriminate]].
+    rewrite orb_true_r. simpl. split; [reflexivity|auto].
+  Qed.
+
+  Definition item_helper_attr (hp : helper) : option aid :=
+    match hp with
+    | HWithItem a | HUpdateItem a | HTransformItem a | HWithoutItem a => Some a
+    | _ => None
+    end.
+
+  Lemma run_helper_item_inplace l hp h a s :
+    item_helper_attr hp = Some a -> h_inplace h = true -> hargs_ok h -> wR l ->
+    (forall c, fst (getattr_default ct l a s) = Ok c -> wrV c) ->
+    sinv b A W h0 s -> sinv b A W h0 (snd (run_helper ct l hp h s)).
+  Proof.
+    intros Hhp Hin (Hpos & Hidx & Hkw & Hkwfn & Hfn) Hwl Hheld Hs. unfold run_helper.
+    destruct (negb (h_if h)); [exact Hs|]. rewrite Hin.
+    assert (Hp0 : okV (pos0 h)) by (apply nth_okv; exact Hpos).
+    assert (Hp1 : okV (pos1 h)) by (apply nth_okv; exact Hpos).
+    assert (Hstart : forall (K : cls * attr_spec -> val -> M val),
+              (forall r c, a_name (snd r) = a -> specOk (snd r) -> wrV c -> SEP (K r c) (Qh l)) ->
+              sinv b A W h0 (snd ((r <- spec_for ct l a ;; c <- mk_mutator ct (snd r) l true ;; K r c) s))).
+    { intros K HK. unfold bind at 1. pose proof (spec_for_pure l a s) as P1. pose proof (spec_for_ok l a s) as P2.
+      destruct (spec_for ct l a s) as [[r|e] s1]; simpl in P1, P2; subst s1; [|exact Hs].
+      destruct (P2 r eq_refl) as [Hn Hsp].
+      unfold bind at 1. destruct (mk_mutator_inplace (snd r) l s) as [Q1 Q2].
+      destruct (mk_mutator ct (snd r) l true s) as [[c|e] s2]; simpl in Q1, Q2; subst s2; [|exact Hs].
+      assert (Hc : wrV c) by (apply Hheld; rewrite <- Hn; apply Q2; reflexivity).
+      exact (proj1 (HK r c Hn Hsp Hc s Hs)). }
+    destruct hp; simpl in Hhp; try discriminate; inversion Hhp; subst a0.
+    - (* HWithItem *)
+      apply (Hstart (fun r c =>
+        c' <- (match family_of (a_ty (snd r)) with
+               | Some FSeq =>
+                   mutate_collection ct rec FSeq (snd r) l c
+                     (mkio (h_index h) (pos0 h) (h_kw h) None [] true
+                           (negb (is_missing (h_index h)) && negb (h_insert h)) (TriTrue) (h_insert h))
+               | Some FMap =>
+                   mutate_collection ct rec FMap (snd r) l c
+                     (mkio (match h_pos h with [] => VNone | k :: _ => k end)
+                           (match h_pos h with _ :: v :: _ => v | _ => VMissing end)
+                           (h_kw h) None [] true false (TriTrue) false)
+               | Some FSet =>
+                   mutate_collection ct rec FSet (snd r) l c
+                     (mkio VMissing (pos0 h) (h_kw h) None [] true false (TriTrue) false)
+               | None => fail AttrErr end) ;;
+        mutate_attr ct rec l a c' true false false false)).
+      intros r c Hn Hsp Hc.
+      eapply sep_bind with (Q := wrV).
+      { destruct (family_of (a_ty (snd r))) as [[| |]|]; try apply sep_fail;
+          (eapply mutate_collection_sep; eauto; unfold io_ok; simpl;
+           (split; [|split; [|split; [exact Hkw|split; [exact I|apply ats_ok_nil]]]])); auto; try exact I.
+        - destruct (h_pos h) as [|k0 t]; [exact I|]. inversion Hpos; auto.
+        - destruct (h_pos h) as [|k0 [|v0 t]]; try exact I. inversion Hpos as [|? ? _ H2]; inversion H2; auto. }
+      intros c' Hc'. apply item_tail_sep; [eapply wrv_okv; exact Hc'|intros _; exact Hwl].
+    - (* HUpdateItem *)
+      apply (Hstart (fun r c =>
+        c' <- (match family_of (a_ty (snd r)) with
+               | Some FSeq =>
+                   mutate_collection ct rec FSeq (snd r) l c
+                     (mkio (pos0 h) (pos1 h) (h_kw h) None [] false
+                           (negb (is_missing (pos0 h))) (tri_of (h_by_index h)) false)
+               | Some FMap =>
+                   mutate_collection ct rec FMap (snd r) l c
+                     (mkio (pos0 h) (pos1 h) (h_kw h) None [] false true (TriTrue) false)
+               | Some FSet =>
+                   mutate_collection ct rec FSet (snd r) l c
+                     (mkio (pos0 h) (pos1 h) (h_kw h) None [] false
+                           (negb (is_missing (pos0 h))) (TriTrue) false)
+               | None => fail AttrErr end) ;;
+        mutate_attr ct rec l a c' true false false false)).
+      intros r c Hn Hsp Hc.
+      eapply sep_bind with (Q := wrV).
+      { destruct (family_of (a_ty (snd r))) as [[| |]|]; try apply sep_fail;
+          (eapply mutate_collection_sep; eauto; unfold io_ok; simpl;
+           (split; [exact Hp0|split; [exact Hp1|split; [exact Hkw|split; [exact I|apply ats_ok_nil]]]])). }
+      intros c' Hc'. apply item_tail_sep; [eapply wrv_okv; exact Hc'|intros _; exact Hwl].
+    - (* HTransformItem *)
+      apply (Hstart (fun r c =>
+        let x := match h_fn h with Some f => Some (XFn f, @None (attr_spec * loc)) | None => None end in
+        c' <- (match family_of (a_ty (snd r)) with
+               | Some fam =>
+                   mutate_collection ct rec fam (snd r) l c
+                     (mkio (pos0 h) VMissing None x (h_kwfn h) false true (tri_of (h_by_index h)) false)
+               | None => fail AttrErr end) ;;
+        mutate_attr ct rec l a c' true false false false)).
+      intros r c Hn Hsp Hc. cbv zeta.
+      eapply sep_bind with (Q := wrV).
+      { destruct (family_of (a_ty (snd r))) as [fam|]; try apply sep_fail.
+        eapply mutate_collection_sep; eauto. unfold io_ok; simpl.
+        split; [exact Hp0|split; [exact I|split; [exact I|split; [|exact Hkwfn]]]].
+        destruct (h_fn h); [exact Hfn|exact I]. }
+      intros c' Hc'. apply item_tail_sep; [eapply wrv_okv; exact Hc'|intros _; exact Hwl].
+    - (* HWithoutItem *)
+      apply (Hstart (fun r c00 =>
+        c <- (if is_missing c00 then create_collection rec (snd r) else ret c00) ;;
+        (match family_of (a_ty (snd r)) with
+         | Some FSeq =>
+             ex <- seq_extractor ct (snd r) c (pos0 h) true (tri_of (h_by_index h)) ;;
+             (match fst ex with
+              | VNone => ret tt
+              | VInt _ | VBool _ =>
+                  let i := match fst ex with VInt z => z | VBool true => 1%Z | _ => 0%Z end in
+                  p <- read_list c ;;
+                  match norm_index (zlen (snd p)) i with
+                  | Some n => write (fst p) (OList (remove_at n (snd p)))
+                  | None => fail IndexErr end
+              | _ => fail TypeErr end)
+         | Some FMap =>
+             ex <- map_extractor ct c (pos0 h) true ;;
+             p <- read_dict c ;;
+             h' <- get_heap ;;
+             write (fst p) (ODict (filter (fun q => negb (val_eqb FUEL ct h' (fst q) (fst ex))) (snd p)))
+         | Some FSet =>
+             ex <- set_extractor ct c (pos0 h) true ;;
+             p <- read_set c ;;
+             xs <- set_discard ct (snd p) (fst ex) ;;
+             write (fst p) (OSet xs)
+         | None => fail AttrErr end) ;;;
+        mutate_attr ct rec l a c true false false false)).
+      intros r c00 Hn Hsp Hc00.
+      eapply sep_bind with (Q := wrV).
+      { destruct (is_missing c00); [eapply sep_weaken; [eapply create_collection_sep; eauto|apply freshv_wrv]|now sret]. }
+      intros c Hc. assert (Hoc := wrv_okv b A W _ Hc).
+      sbindT.
+      { destruct (family_of (a_ty (snd r))) as [[| |]|]; try apply sep_fail.
+        - sbind; [eapply seq_extractor_sep; eauto|]. intros ex _.
+          destruct (fst ex); try apply sep_fail; try (now sret); cbv zeta.
+          + sbi p Hp. destruct Hp as [-> Hp]. specialize (Hp Hoc).
+            destruct (norm_index _ _); [|apply sep_fail].
+            apply sep_write; [exact Hc|]. simpl. now apply Forall_remove_at.
+          + sbi p Hp. destruct Hp as [-> Hp]. specialize (Hp Hoc).
+            destruct (norm_index _ _); [|apply sep_fail].
+            apply sep_write; [exact Hc|]. simpl. now apply Forall_remove_at.
+        - sbind; [eapply map_extractor_sep; eauto|]. intros ex _.
+          sbi p Hp. destruct Hp as [-> Hp]. specialize (Hp Hoc). sbi h' Hh.
+          apply sep_write; [exact Hc|]. unfold obj_ok. apply Forall_filter. exact Hp.
+        - sbind; [eapply set_extractor_sep; eauto|]. intros ex _.
+          sbi p Hp. destruct Hp as [-> Hp]. specialize (Hp Hoc).
+          sbind; [eapply set_discard_sep; eauto|]. intros xs Hxs.
+          apply sep_write; [exact Hc|exact Hxs]. }
+      intros _ _. apply item_tail_sep; [exact Hoc|intros _; exact Hwl].
+  Qed.
 End Helpers.
 
 (* ------------------------------------------------------------------ *)
@@ -2309,5 +2506,36 @@ Section Confinement.
     destruct (step_sep ct no_dnc wf_owner b AllA W h0 (AllA_closed b W h0) (AllA_table ct b) (AllA_dnc ct b h0)
                 roots o Hok s (sinv_start h0 AllA W s eq_refl)) as [(_ & Old & _) _].
     destruct (Old l' Hl') as [Hw|He]; [contradiction|exact He].
+  Qed.
+  (* element helpers: one more cell may be written, the collection object the
+     attribute holds (looked up as the helper does: instance dict, else class attribute) *)
+  Theorem inplace_item_confined roots x hp h a s l :
+    item_helper_attr hp = Some a -> nth x roots VNone = VRef l ->
+    forall l', l' < length (heap s) -> l' <> l ->
+      (forall lc, fst (getattr_default ct l a s) = Ok (VRef lc) -> l' <> lc) ->
+      nth_error (heap (snd (step ct roots (OpHelper x hp h) s))) l' = nth_error (heap s) l'.
+  Proof.
+    intros Hhp Hroot l' Hl' Hne Hnc.
+    set (h0 := heap s). set (b := length h0).
+    set (W := fun y : loc => y = l \/ fst (getattr_default ct l a s) = Ok (VRef y)).
+    assert (Hwl : wr b AllA W l) by (right; split; [left; reflexivity|exact I]).
+    assert (Hargs : hargs_ok ct b AllA h).
+    { split; [apply Forall_okv_all|]. split; [apply okv_all|].
+      split; [destruct (h_kw h); simpl; auto; unfold kw_okv; rewrite Forall_forall; intros; apply okv_all|].
+      split; [|destruct (h_fn h); simpl; auto using fn_ok_all].
+      split; [rewrite Forall_forall; intros; apply fn_ok_all|right; intros c0 k0 a0 _; apply okv_all]. }
+    assert (Hs : sinv b AllA W h0 s) by (apply sinv_start; reflexivity).
+    assert (Hfin : sinv b AllA W h0 (snd (step ct roots (OpHelper x hp h) s))).
+    { destruct (h_inplace h) eqn:Ein.
+      - unfold step. rewrite Hroot. simpl loc_of. unfold bind at 1. simpl.
+        eapply (run_helper_item_inplace ct no_dnc wf_owner b AllA W h0 (AllA_closed b W h0) (AllA_table ct b)
+                  (AllA_dnc ct b h0) l hp h a s Hhp Ein Hargs Hwl); [|exact Hs].
+        intros c Hc. destruct c; simpl; auto. right. split; [right; exact Hc|exact I].
+      - refine (proj1 (step_sep ct no_dnc wf_owner b AllA W h0 (AllA_closed b W h0) (AllA_table ct b)
+                         (AllA_dnc ct b h0) roots (OpHelper x hp h) _ s Hs)).
+        simpl. split; [exact Hargs|]. intros l0 E. split; [rewrite Ein; discriminate|].
+        destruct hp; simpl in Hhp; try discriminate; exact I. }
+    destruct Hfin as (_ & Old & _).
+    destruct (Old l' Hl') as [[Hw|Hw]|He]; [contradiction|exfalso; exact (Hnc l' Hw eq_refl)|exact He].
   Qed.
 End Confinement.
